@@ -115,6 +115,8 @@ def r2_offsets_fit_guards(cx):
     cur = [(ci, ct) for ci, ct in fp.calls() if callee_is(ct, "io::Cursor::new")]
     ok = len(cur) == 1 and (lambda r: r is not None and r["l"] == 1)(deep_root(fp, cur[0][1]["args"][0]))
     cx.check("frame-cursor-over-input", ok, site_of(fp), "the Ethernet dissector reads through one cursor over its input")
+    from .c13 import tag_masked_before_use
+    tag_masked_before_use(cx, "vlan")
 
 
 def r3_bytes_from_input_only(cx):
